@@ -197,7 +197,15 @@ def r3_compressed(ctx):
             k, v = load(interp, env, args[1]), args[2]
             interp.mstate[m.tag] = interp.mstate.get(m.tag, ()) + ((k, v),)
             return NONE
-        table = {"std::collections::hash::map::HashMap::new": hm_new, "std::collections::hash::map::HashMap::with_capacity": hm_new,
+        def hm_len(interp, env, f, args):
+            m = load(interp, env, args[0])
+            return len(interp.mstate.get(m.tag, ())) if isinstance(m, Sym) and m.tag.startswith("map:") else TOP
+
+        def hm_is_empty(interp, env, f, args):
+            r = hm_len(interp, env, f, args)
+            return TOP if r is TOP else r == 0
+        table = {"std::collections::hash::map::HashMap::len": hm_len, "std::collections::hash::map::HashMap::is_empty": hm_is_empty,
+                 "std::collections::hash::map::HashMap::new": hm_new, "std::collections::hash::map::HashMap::with_capacity": hm_new,
                  "std::collections::hash::map::HashMap::entry": hm_entry, "std::collections::hash::map::Entry::or_insert_with": or_insert_with,
                  "std::collections::hash::map::HashMap::insert": hm_insert}
         it = install(Interp(fn.body, chain(mk_oracle(table), coll_oracle, std_oracle), [log], facts=F, inline=INL, max_visits=20, max_paths=50))
@@ -324,3 +332,55 @@ def run(ctx):
     ctx.guard("C15.R3", "compressed export", lambda: r3_compressed(ctx))
     ctx.guard("C15.R4", "serialisation coverage", lambda: r4_serialization_coverage(ctx))
     ctx.guard("C15.R5", "configuration export", lambda: r5_to_ron(ctx))
+    ctx.guard("C15.R6", "serialised names are identifiers", lambda: r6_names_are_identifiers(ctx))
+
+
+# ------------------------------------------------------------------ R6: names handed to the serializer
+
+NAME_ARGS = {  # Serializer method -> indices (after self) of the arguments that become struct / variant NAMES in the output
+    "serialize_unit_struct": (1,), "serialize_newtype_struct": (1,), "serialize_tuple_struct": (1,), "serialize_struct": (1,),
+    "serialize_unit_variant": (1, 3), "serialize_newtype_variant": (1, 3), "serialize_tuple_variant": (1, 3), "serialize_struct_variant": (1, 3),
+}
+
+
+def r6_names_are_identifiers(ctx):
+    """Configuration::to_ron writes with `struct_names(true)`: every struct / variant name handed to the serializer is
+    emitted as a RON identifier, and the RON serializer rejects anything that is not one ("Invalid identifier") - the
+    whole export then fails.  So every name argument of a Serializer::serialize_*struct / *variant call in the crate
+    (derive-generated ones included) must be a string constant of identifier shape; a run-time string such as
+    type_name::<T>() ("mahf::state::common::Iterations") is not."""
+    import re
+    from core import op_const
+    from kinds import origin
+    F = ctx.facts
+    n = 0
+    ident = re.compile(r"^(r#)?[A-Za-z_][A-Za-z0-9_]*$")
+    for f in F.all_fns:
+        for bb, t in f.body.calls():
+            ff = t["f"]
+            k = ff.get("key", "")
+            nm = ff.get("name")
+            if nm not in NAME_ARGS or not re.match(r"^serde(_core)?::ser::Serializer::", k):
+                continue
+            for ai in NAME_ARGS[nm]:
+                if ai >= len(t["args"]):
+                    continue
+                n += 1
+                c = op_const(t["args"][ai])
+                text = None
+                if c is not None:
+                    m = re.match(r'^const "(.*)"$', c.get("text", "")) or re.match(r'^"(.*)"$', c.get("text", ""))
+                    text = m.group(1) if m else None
+                if text is None:
+                    e = f.body.expr_of_op(t["args"][ai])
+                    from core import expr_str, subexprs
+                    src = [x[1] for x in subexprs(e) if x[0] == "call"]
+                    ctx.violation("C15.R6", f.key, "name-argument:%s" % nm,
+                                  "%s is given a run-time string as %s name (%s): with struct_names(true) the RON export emits it as an identifier and fails with `Invalid identifier` for any path-like name, so no configuration containing this type can be exported"
+                                  % (nm, "variant" if ai == 3 else "struct", ", ".join(src) or expr_str(e)[:80]), loc=f.loc(t.get("line")))
+                elif not ident.match(text):
+                    ctx.violation("C15.R6", f.key, "name-argument:%s" % nm, "%s is given the name %r, which is not an identifier" % (nm, text), loc=f.loc(t.get("line")))
+    ctx.count("serializer_name_arguments", n)
+    ctx.floor("C15.R6", "struct / variant names handed to serializers", n, 100)
+    if not any(r.get("rule") == "C15.R6" and r.get("verdict") == "violation" for r in ctx.results):
+        ctx.ok("C15.R6", "crate", "names-are-identifiers", "%d name arguments" % n)
